@@ -1,45 +1,158 @@
 """C17 — traffic-light state follows the cycle definition.
-model: lean/CRModel/TrafficLight.lean; theorems: lean/CRProps/C17.lean."""
-from common import call, canon
+model: lean/CRModel/TrafficLight.lean (the function), lean/CRModel/TrafficLightHist.lean (the object with its memoised table);
+theorems: lean/CRProps/C17.lean.
 
-RULE = ("cycles of 1..6 elements (durations 1..9, sometimes up to 10^6; all colours), offsets 0..20 (sometimes large), "
-        "time steps from -3 periods to +5 periods around the offset plus far-away steps; a case is one (cycle, offset, "
-        "list of time steps); non-trivial = every case (each evaluates >= 1 step outside the first period or at a phase boundary); "
-        "distinct = distinct canonical JSON of the case")
+Two streams of cases:
+  flat  {"es", "off", "ts" [, "ityp", "ttyp", "noff"]}: one cycle definition x ~40 time steps (phase boundaries of several periods,
+        before the offset, far away), evaluated on fresh objects (cycle, light) + a few fixed query/set/query orders;
+  hist  {"kind": "hist", ...}: ONE cycle object (optionally in a TrafficLight, optionally held by a LaneletNetwork / Scenario,
+        optionally written to and read back from an XML / protobuf file) under a history of public operations with queries in
+        between.  The Lean model runs the same history (memo included) and must predict every answer; the oracle keeps its own
+        book of what was put into the cycle and walks the definition.
+DIMENSIONS lists every constructor parameter, settable attribute and public operation of the three anchored classes with the
+way the generators vary it; check_dimensions() compares the table with the classes of the working tree on every run."""
+import copy
+import inspect
+import pickle
+
+from common import InfraError, call
+
+RULE = ("flat: cycles of 1..6 (sometimes 7..60) elements, durations 1..9 (sometimes up to 10^6 / 10^12; given as int, numpy.int64 or "
+        "numpy.int32), all colours, offsets 0..20 / large / argument omitted, ~40 time steps per case (both ends of every element's "
+        "window in periods -2..3, -3..+5 periods around the offset, far-away steps up to +-10^15; as int, numpy.int64 or "
+        "numpy.int32). hist: one cycle object (1..5 elements, the same element object possibly at two positions; every optional "
+        "constructor argument of TrafficLightCycle and TrafficLight given / omitted / None; light free, held by a LaneletNetwork or a "
+        "Scenario, or written to XML / protobuf and read back) under 3..12 operations: queries through the cycle, the light and the "
+        "holder; time_offset / cycle_elements setters (new list, same list edited in place and re-assigned, permutation of the held "
+        "element objects); in-place duration / state edits of a held element and in-place append to the held list, before and after "
+        "a first query; replacing / re-assigning the light's cycle; every other setter, translate_rotate, convert_to_2d, ==, hash, "
+        "str, repr, reads of cycle_init_timesteps, drawing, deepcopy / pickle of cycle, light and network (the history goes on on the "
+        "copy), and calls that raise (ill-typed time step, out-of-range angle, a query on an emptied cycle). distinct = canonical "
+        "JSON of the case; non-trivial = every case (flat: >= 1 step outside the first period or at a phase boundary; hist: >= 1 "
+        "query after >= 1 other operation)")
 ASSUMPTIONS = ["numpy cumsum/insert/argmax on int64 denote their list counterparts (sampled by the correspondence)",
-               "durations and time steps fit in int64 (numpy); the model uses unbounded integers"]
+               "durations, offsets, time steps and every sum of them fit the integer type they are given in (int64 for Python "
+               "ints; numpy.int32 values are only generated below 2^31 including the total duration); the model uses unbounded "
+               "integers. Unsigned and 8/16-bit numpy integers are not generated (their wrap-around is numpy's, not the cycle's)",
+               "outside the quantifier ('one or more elements with positive integer durations, offset >= 0'), no verdict: a cycle "
+               "with no elements / constructed with cycle_elements=None, a light without a cycle, durations <= 0, negative offsets, "
+               "non-integer time steps; an emptied cycle is only queried to leave a failed call behind (the call must raise or "
+               "answer; what it answers is not judged)",
+               "in-place edits generated: element.duration=, element.state=, cycle_elements.append(e) on the list the getter hands "
+               "out. Other list surgery (pop / insert / slice assignment without the setter) and writes into the array returned by "
+               "cycle_init_timesteps are not generated",
+               "== / hash / str / repr of cycles, elements and lights are generated as read-only operations between queries; their "
+               "VALUES are C12's subject and not judged here",
+               "a cycle read from a file is judged against the elements and the offset its public getters report (whether the file "
+               "round trip preserves them is C02/C03's subject)"]
 EXTRA_MODULES = ['CRProps.T17']      # translator tie: Gen.Src (regenerated from /repo every run) = hand model
-REQUIRED_BUCKETS = ["single-element", "t<offset", "boundary", "many-periods", "light/cycle-replaced", "light/inactive", "light/active", "cycle/setter-after-query", "cycle/same-list-reassigned",
-                    "light/color-lacks-a-cycle-state", "light/color-disjoint-by-setter"]
+REQUIRED_BUCKETS = ["single-element", "t<offset", "boundary", "many-periods", "light/cycle-replaced", "light/inactive", "light/active",
+                    "cycle/setter-after-query", "cycle/same-list-reassigned",
+                    "light/color-lacks-a-cycle-state", "light/color-disjoint-by-setter",
+                    # generator audit
+                    "flat/ityp-np.int64", "flat/ityp-np.int32", "flat/ttyp-np.int64", "flat/ttyp-np.int32", "flat/offset-omitted",
+                    "flat/many-elements", "flat/huge-duration", "flat/huge-t",
+                    "hist/alias", "hist/off-omitted", "hist/cyc-active-False", "hist/cyc-active-omitted", "hist/no-light",
+                    "hist/light-pos-None", "hist/light-pos-3d", "hist/light-id-0", "hist/light-shape", "hist/light-color-empty",
+                    "hist/light-active-False", "hist/light-direction-given",
+                    "hist/hold-network", "hist/hold-scenario", "hist/io-xml", "hist/io-pb",
+                    "hist/ityp-np.int64", "hist/ityp-np.int32",
+                    "via/cycle", "via/light", "via/holder", "via/twin", "q/np.int64", "q/np.int32",
+                    "op/off", "op/off-same-value", "op/es-new", "op/es-same", "op/es-reuse", "op/dur-before-first-query", "op/dur-after-query",
+                    "op/state-before-first-query", "op/state-after-query", "op/app-before-first-query", "op/app-after-query",
+                    "op/dur-on-aliased-element", "op/fresh", "op/reassign", "op/read", "op/read-before-first-query",
+                    "op/setter-order/off-es", "op/setter-order/es-off"] + \
+                   [f"op/keep/{k}" for k in ("cyc_active", "light_active", "color", "direction", "position", "id", "shape",
+                                              "translate_rotate", "convert_to_2d", "eq", "hash", "str", "repr", "deepcopy_cycle",
+                                              "pickle_cycle", "deepcopy_light", "pickle_light", "deepcopy_holder", "pickle_holder",
+                                              "copy_network", "holder_translate_rotate", "raise_q", "raise_tr", "raise_empty", "draw")]
+
+K_DUR = "C17/cycle.get_state_at_time_step/stale-after/element.duration=(held)"
+K_APP = "C17/cycle.get_state_at_time_step/stale-after/cycle_elements.append(in-place)"
+
+# ------------------------------------------------------------------------------------------------ dimension table
+# (class, kind, name) -> how the generators vary it.  kind: ctor = constructor parameter, set = property with a setter,
+# get = read-only property, op = public method (dunder methods defined by the class included).
+DIMENSIONS = {
+    ("TrafficLightCycleElement", "ctor", "state"): "all 5 TrafficLightState values (flat + hist)",
+    ("TrafficLightCycleElement", "ctor", "duration"): "1..9, 1, up to 10^6 / 10^12; int, numpy.int64, numpy.int32 (ityp)",
+    ("TrafficLightCycleElement", "set", "state"): "hist op `state` on an element the cycle holds, before / after the first query",
+    ("TrafficLightCycleElement", "set", "duration"): "hist op `dur` on an element the cycle holds (also one held at two positions), "
+                                                     "before / after the first query",
+    ("TrafficLightCycleElement", "op", "__eq__"): "hist keep op `eq` (read-only between queries)",
+    ("TrafficLightCycleElement", "op", "__hash__"): "hist keep op `hash`",
+    ("TrafficLightCycleElement", "op", "__str__"): "hist keep op `str`",
+    ("TrafficLightCycleElement", "op", "__repr__"): "hist keep op `repr`",
+    ("TrafficLightCycle", "ctor", "cycle_elements"): "1..60 elements, same object at two positions (cls); None / [] outside the quantifier",
+    ("TrafficLightCycle", "ctor", "time_offset"): "0..20, large, omitted (default), int / numpy.int64 / numpy.int32",
+    ("TrafficLightCycle", "ctor", "active"): "True / False / omitted (hist cyc_active)",
+    ("TrafficLightCycle", "set", "cycle_elements"): "hist op `es`: new list, same list object edited in place and re-assigned, "
+                                                    "permutation / repetition of the held element objects; before and after queries",
+    ("TrafficLightCycle", "set", "time_offset"): "hist op `off` (also the unchanged value, numpy ints), in both orders with `es`",
+    ("TrafficLightCycle", "set", "active"): "hist keep op `cyc_active`",
+    ("TrafficLightCycle", "get", "cycle_init_timesteps"): "hist op `read` (before / after the first query)",
+    ("TrafficLightCycle", "op", "get_state_at_time_step"): "the observation; t as int / numpy.int64 / numpy.int32, negative, huge",
+    ("TrafficLightCycle", "op", "__eq__"): "hist keep op `eq`", ("TrafficLightCycle", "op", "__hash__"): "hist keep op `hash`",
+    ("TrafficLightCycle", "op", "__str__"): "hist keep op `str`", ("TrafficLightCycle", "op", "__repr__"): "hist keep op `repr`",
+    ("TrafficLight", "ctor", "traffic_light_id"): "0, 1, 7, large",
+    ("TrafficLight", "ctor", "position"): "2-d array, 3-d array, None",
+    ("TrafficLight", "ctor", "traffic_light_cycle"): "the cycle under test; None outside the quantifier",
+    ("TrafficLight", "ctor", "color"): "omitted, None, [], a strict subset of the cycle's states, a disjoint state, all states",
+    ("TrafficLight", "ctor", "active"): "True / False / omitted",
+    ("TrafficLight", "ctor", "direction"): "omitted or any of the 7 TrafficLightDirection values",
+    ("TrafficLight", "ctor", "shape"): "omitted / None / a Rectangle",
+    ("TrafficLight", "set", "traffic_light_id"): "hist keep op `id`",
+    ("TrafficLight", "set", "position"): "hist keep op `position`",
+    ("TrafficLight", "set", "traffic_light_cycle"): "hist ops `fresh` (a new cycle object) and `reassign` (the same object)",
+    ("TrafficLight", "set", "color"): "hist keep op `color` (flat: colour by setter)",
+    ("TrafficLight", "set", "active"): "hist keep op `light_active`",
+    ("TrafficLight", "set", "direction"): "hist keep op `direction`",
+    ("TrafficLight", "set", "shape"): "hist keep op `shape`",
+    ("TrafficLight", "op", "translate_rotate"): "hist keep ops `translate_rotate`, `holder_translate_rotate`, `raise_tr` (angle out of range)",
+    ("TrafficLight", "op", "convert_to_2d"): "hist keep op `convert_to_2d`",
+    ("TrafficLight", "op", "draw"): "hist keep op `draw` (MPRenderer; a read-only query through the renderer)",
+    ("TrafficLight", "op", "get_state_at_time_step"): "the observation (via light / via the holder's find_traffic_light_by_id)",
+    ("TrafficLight", "op", "__eq__"): "hist keep op `eq`", ("TrafficLight", "op", "__hash__"): "hist keep op `hash`",
+    ("TrafficLight", "op", "__str__"): "hist keep op `str`", ("TrafficLight", "op", "__repr__"): "hist keep op `repr`",
+}
 
 
+def actual_dimensions():
+    import commonroad.scenario.traffic_light as M
+    out = set()
+    for cls in (M.TrafficLightCycleElement, M.TrafficLightCycle, M.TrafficLight):
+        for p in inspect.signature(cls.__init__).parameters:
+            if p != "self":
+                out.add((cls.__name__, "ctor", p))
+        for name, v in vars(cls).items():
+            if isinstance(v, property):
+                out.add((cls.__name__, "set" if v.fset is not None else "get", name))
+            elif callable(v) or isinstance(v, (staticmethod, classmethod)):
+                if name == "__init__" or (name.startswith("_") and not name.startswith("__")):
+                    continue          # private helpers are reached through the public operations above
+                out.add((cls.__name__, "op", name))
+    return out
+
+
+def check_dimensions():
+    """A constructor parameter / setter / public method the table does not know => infrastructure error (exit 2): the
+    generators have to be taught about it before the check may claim coverage again.  Returns the message (None = in step)."""
+    act, tab = actual_dimensions(), set(DIMENSIONS)
+    new, gone = sorted(act - tab), sorted(tab - act)
+    if new or gone:
+        return f"C17 DIMENSIONS out of date: unknown to the table {new}; no longer in the code {gone}"
+    return None
+
+
+# ------------------------------------------------------------------------------------------------ shared helpers
 def _states():
     from commonroad.scenario.traffic_light import TrafficLightState
     return list(TrafficLightState)
 
 
-def gen_case(ctx):
-    r = ctx.rng
-    n = r.choice([1, 1, 2, 3, 3, 4, 5, 6])
-    big = r.random() < 0.1
-    st = _states()
-    es = [[r.randrange(len(st)), r.randint(1, 10 ** 6) if big and r.random() < 0.5 else r.randint(1, 9)] for _ in range(n)]
-    off = r.choice([0, 0, 1, 2, 5, 20, r.randint(0, 20), r.randint(0, 10 ** 6)])
-    total = sum(d for _, d in es)
-    ts = set()
-    # phase boundaries in several periods
-    acc = 0
-    for _, d in es:
-        for per in (-2, -1, 0, 1, 3):
-            ts.update([off + per * total + acc, off + per * total + acc + d - 1])
-        acc += d
-    for _ in range(6):
-        ts.add(r.randint(off - 3 * total, off + 5 * total))
-    ts.add(r.randint(-10 ** 9, 10 ** 9))
-    ts = sorted(ts)
-    if len(ts) > 40:
-        ts = sorted(r.sample(ts, 40))
-    return {"es": es, "off": off, "ts": ts}
+def _num(typ, v):
+    import numpy as np
+    return {"int": int, "np.int64": np.int64, "np.int32": np.int32}[typ or "int"](v)
 
 
 def oracle_state(es, off, t):
@@ -53,11 +166,74 @@ def oracle_state(es, off, t):
     raise AssertionError("unreachable")
 
 
+def _fail(ctx, key, what, case, cap=3):
+    """ctx.fail, but one key at most `cap` times per worker (a recorded finding must not crowd out new ones)."""
+    seen = ctx.__dict__.setdefault("_c17_keys", {})
+    seen[key] = seen.get(key, 0) + 1
+    if seen[key] <= cap:
+        ctx.fail(key, what, case)
+
+
+# ------------------------------------------------------------------------------------------------ flat stream
+def gen_case(ctx):
+    r = ctx.rng
+    n = r.choice([1, 1, 2, 3, 3, 4, 5, 6])
+    if r.random() < 0.04:
+        n = r.randint(7, 60)
+    big = r.random() < 0.1
+    st = _states()
+    es = [[r.randrange(len(st)), r.randint(1, 10 ** 6) if big and r.random() < 0.5 else r.randint(1, 9)] for _ in range(n)]
+    off = r.choice([0, 0, 1, 2, 5, 20, r.randint(0, 20), r.randint(0, 10 ** 6)])
+    case = {}
+    u = r.random()
+    if u < 0.12:
+        case["ityp"] = r.choice(["np.int64", "np.int32"])
+    elif u < 0.2:
+        case["noff"] = True
+        off = 0
+    elif u < 0.26 and not big:
+        es[r.randrange(n)][1] = r.choice([10 ** 12, 10 ** 12 + 7, 2 ** 40])       # a very long phase
+    total = sum(d for _, d in es)
+    ts = set()
+    # phase boundaries in several periods
+    acc = 0
+    for _, d in es:
+        for per in (-2, -1, 0, 1, 3):
+            ts.update([off + per * total + acc, off + per * total + acc + d - 1])
+        acc += d
+    for _ in range(6):
+        ts.add(r.randint(off - 3 * total, off + 5 * total))
+    ts.add(r.randint(-10 ** 9, 10 ** 9))
+    if r.random() < 0.3:
+        ts.update([r.randint(-10 ** 15, 10 ** 15), -10 ** 15, 10 ** 15 + off])
+    ts = sorted(ts)
+    if len(ts) > 40:
+        ts = sorted(r.sample(ts, 40))
+    v = r.random()
+    if v < 0.15:
+        case["ttyp"] = "np.int64"
+    elif v < 0.3:
+        case["ttyp"] = "np.int32"
+    lim = 2 ** 31 - 1
+    if case.get("ttyp") == "np.int32" or case.get("ityp") == "np.int32":
+        # everything numpy computes in 32 bits has to fit: keep the whole case small
+        es = [[s, min(d, 9)] for s, d in es]
+        off = min(off, 20)
+        total = sum(d for _, d in es)
+        ts = sorted({max(-10 ** 6, min(10 ** 6, t)) for t in ts} | {off + total, off + total - 1, off - 1})
+        assert all(abs(t) + off + total < lim for t in ts)
+    case.update({"es": es, "off": off, "ts": ts})
+    return case
+
+
 def run_case(ctx, case):
+    if case.get("kind") == "hist":
+        return run_hist(ctx, case)
     from commonroad.scenario.traffic_light import (TrafficLight, TrafficLightCycle, TrafficLightCycleElement)
     import numpy as np
     st = _states()
     es, off, ts = case["es"], case["off"], case["ts"]
+    ityp, ttyp, noff = case.get("ityp"), case.get("ttyp"), bool(case.get("noff")) and off == 0
     total = sum(d for _, d in es)
     if len(es) == 1:
         ctx.tag("single-element")
@@ -66,10 +242,23 @@ def run_case(ctx, case):
     if any(t > off + 2 * total for t in ts):
         ctx.tag("many-periods")
     ctx.tag("boundary")
+    if ityp:
+        ctx.tag(f"flat/ityp-{ityp}")
+    if ttyp:
+        ctx.tag(f"flat/ttyp-{ttyp}")
+    if noff:
+        ctx.tag("flat/offset-omitted")
+    if len(es) > 6:
+        ctx.tag("flat/many-elements")
+    if any(d >= 10 ** 12 for _, d in es):
+        ctx.tag("flat/huge-duration")
+    if any(abs(t) >= 10 ** 14 for t in ts):
+        ctx.tag("flat/huge-t")
     ctx.case(case)
 
     def mk():
-        return TrafficLightCycle([TrafficLightCycleElement(st[s], d) for s, d in es], time_offset=off)
+        els = [TrafficLightCycleElement(st[s], _num(ityp, d)) for s, d in es]
+        return TrafficLightCycle(els) if noff else TrafficLightCycle(els, time_offset=_num(ityp, off))
 
     impl, impl_light = [], []
     cyc = mk()
@@ -88,9 +277,9 @@ def run_case(ctx, case):
     ctx.tag("light/inactive" if not light.active else "light/active")
     ctx.tag(f"light/color-{['default', 'lacks-a-cycle-state', 'disjoint-by-setter', 'all-cycle-states'][cmode]}")
     for t in ts:
-        r = call(cyc.get_state_at_time_step, t)
+        r = call(cyc.get_state_at_time_step, _num(ttyp, t))
         impl.append({"ok": st.index(r[1])} if r[0] == "ok" else {"err": r[1]})
-        r2 = call(light.get_state_at_time_step, t)
+        r2 = call(light.get_state_at_time_step, _num(ttyp, t))
         impl_light.append({"ok": st.index(r2[1])} if r2[0] == "ok" else {"err": r2[1]})
     model = ctx.driver.ask("C17", "state_at", {"es": es, "off": off, "ts": ts})
     model_light = ctx.driver.ask("C17", "light_state_at", {"es": es, "off": off, "ts": ts})
@@ -99,7 +288,7 @@ def run_case(ctx, case):
     # oracle (independent of the model)
     for t, a, b in zip(ts, impl, impl_light):
         want = oracle_state(es, off, t)
-        sub = {"es": es, "off": off, "ts": [t]}
+        sub = dict(case, ts=[t])
         if "err" in a:
             ctx.fail(f"C17/cycle.get_state_at_time_step/raises-{a['err']}", f"raises for cycle {es} offset {off} t={t}", sub)
         elif a["ok"] != want:
@@ -119,7 +308,7 @@ def run_case(ctx, case):
         if b2[:2] != a2[:2] or (b2[0] == "ok" and st.index(b2[1]) != want2):
             ctx.fail("C17/light.get_state_at_time_step/disagrees-with-cycle-after-replacement",
                      f"after light.traffic_light_cycle = <new cycle>: light reports {b2[1]}, new cycle defines {st[want2].name} at t={t}",
-                     {"es": es, "off": off, "ts": [t]})
+                     dict(case, ts=[t]))
             break
     ctx.tag("light/cycle-replaced")
     # the cycle itself after its offset / elements are changed through the setters (query -> set -> query)
@@ -146,23 +335,674 @@ def run_case(ctx, case):
             ctx.fail("C17/cycle.get_state_at_time_step/wrong-state-after-setter",
                      f"after queries, time_offset = {off3}" + (" and cycle_elements replaced / extended" if es3 is not es else "") +
                      f": t={t} reports {a3[1] if a3[0] == 'ok' else a3[2]}, the cycle definition gives {st[want3].name}",
-                     {"es": es, "off": off, "ts": ts[:3] + [t]})
+                     dict(case, ts=ts[:3] + [t]))
             break
     ctx.tag("cycle/setter-after-query")
     tt = ts[len(ts) // 2]
     r1, r2 = call(mk().get_state_at_time_step, tt), call(mk().get_state_at_time_step, tt + total)
     if r1[:2] != r2[:2]:
         ctx.fail("C17/cycle.get_state_at_time_step/not-periodic", f"state at {tt} and {tt}+{total} differ",
-                 {"es": es, "off": off, "ts": [tt, tt + total]})
+                 dict(case, ts=[tt, tt + total]))
+
+
+# ------------------------------------------------------------------------------------------------ history stream
+KEEPS_ANY = ["cyc_active", "eq", "hash", "str", "repr", "deepcopy_cycle", "pickle_cycle", "raise_q"]
+KEEPS_LIGHT = ["light_active", "color", "direction", "position", "id", "shape", "translate_rotate", "convert_to_2d",
+               "deepcopy_light", "pickle_light", "raise_tr", "draw"]
+KEEPS_HOLD = ["deepcopy_holder", "pickle_holder", "copy_network", "holder_translate_rotate"]
+FORCE = ["alias", "off-omitted", "cyc-active-False", "cyc-active-omitted", "no-light", "light-pos-None", "light-pos-3d", "light-id-0",
+         "light-shape", "light-color-empty", "light-active-False", "light-direction-given", "hold-network", "hold-scenario", "io-xml",
+         "io-pb", "np.int64", "np.int32", "via-holder", "via-twin", "q-np.int32", "q-np.int64",
+         "op:off-same", "op:es-same", "op:es-reuse", "op:dur-early", "op:dur-late", "op:state-early", "op:state-late", "op:app-early",
+         "op:app-late", "op:dur-alias", "op:fresh", "op:reassign", "op:read", "op:read-early", "op:off-es", "op:es-off", "op:raise_empty"] + \
+        [f"keep:{k}" for k in KEEPS_ANY + KEEPS_LIGHT + KEEPS_HOLD]
+
+
+def _g_elems(r, n, small=False):
+    """n [state, duration] pairs + identity classes (with probability 1/5 one object sits at two positions)"""
+    es = [[r.randrange(5), r.choice([1, 1, 2, 3, r.randint(1, 9)] + ([] if small else [r.randint(1, 10 ** 6)]))] for _ in range(n)]
+    cls = list(range(n))
+    return es, cls
+
+
+def gen_hist(ctx, force=None):
+    """One history.  `force` names a dimension this case must exercise (run() cycles through FORCE so that no required bucket
+    depends on the luck of a seed)."""
+    r = ctx.rng
+    f = force or ""
+    small = f in ("np.int32", "q-np.int32") or r.random() < 0.1
+    ityp = "np.int32" if f == "np.int32" else "np.int64" if f == "np.int64" else r.choice(["int"] * 6 + ["np.int64"] + (["np.int32"] if small else []))
+    small = small or ityp == "np.int32"
+    n = r.choice([1, 2, 2, 3, 3, 4, 5])
+    if f in ("alias", "op:dur-alias"):
+        n = max(n, 2)
+    es, cls = _g_elems(r, n, small)
+    if n >= 2 and (f in ("alias", "op:dur-alias") or r.random() < 0.2):
+        i, j = r.sample(range(n), 2)
+        es[j], cls[j] = list(es[i]), cls[i]
+    off = r.choice([0, 0, 1, 2, 5, 20, r.randint(0, 40)] + ([] if small else [r.randint(0, 10 ** 6)]))
+    case = {"kind": "hist", "es": es, "cls": cls, "off": off, "ityp": ityp}
+    if f == "off-omitted" or (not force and r.random() < 0.15):
+        case["off"] = None
+        off = 0
+    case["cyc_active"] = False if f == "cyc-active-False" else None if f == "cyc-active-omitted" else r.choice([True, False, None])
+    io = "xml" if f == "io-xml" else "pb" if f == "io-pb" else r.choice([None] * 8 + ["xml", "pb"])
+    hold = "network" if f == "hold-network" else "scenario" if f == "hold-scenario" else r.choice([None, None, "network", "scenario"])
+    need_light = io or hold or f.startswith("light-") or f in ("via-holder", "op:fresh", "op:reassign") or f[5:] in KEEPS_LIGHT + KEEPS_HOLD
+    if f[5:] in KEEPS_HOLD or f == "via-holder":
+        hold = hold or r.choice(["network", "scenario"])
+    if f in ("no-light", "keep:deepcopy_cycle", "keep:pickle_cycle") or (not need_light and r.random() < 0.3):
+        light, hold, io = None, None, None
+    else:
+        light = {"id": 0 if f == "light-id-0" else r.choice([0, 1, 7, 10 ** 6])}
+        light["pos"] = None if f == "light-pos-None" else [1.5, -2.0, 3.0] if f == "light-pos-3d" else \
+            r.choice([[0.0, 0.0], [3.5, -2.25], [1.5, -2.0, 3.0], None])
+        used = sorted({s for s, _ in es})
+        light["color"] = [] if f == "light-color-empty" else r.choice(["omit", None, [], used[:-1], [(used[0] + 1) % 5], used])
+        light["active"] = False if f == "light-active-False" else r.choice(["omit", True, False])
+        light["direction"] = r.randrange(7) if f == "light-direction-given" else r.choice(["omit"] + list(range(7)))
+        light["shape"] = [0.5, 1.5] if f == "light-shape" else r.choice(["omit", None, [0.5, 1.5]])
+        if io and light["pos"] is not None and len(light["pos"]) == 3:
+            light["pos"] = light["pos"][:2]       # the file formats store 2-d positions
+        kf = f[5:] if f.startswith("keep:") else ""
+        if kf in ("translate_rotate", "draw", "holder_translate_rotate", "raise_tr"):
+            light["pos"] = [3.5, -2.25]
+        if kf == "convert_to_2d":
+            light["pos"] = [1.5, -2.0, 3.0]
+        if kf in ("id", "deepcopy_light", "pickle_light"):
+            hold = None
+    if force and not f.startswith("io-"):
+        io = None
+    case["light"], case["hold"], case["io"] = light, hold, io
+    if io:
+        # what the file formats can carry: 32-bit durations
+        case["es"] = es = [[s, min(d, 10 ** 6)] for s, d in es]
+
+    # ---- operations
+    ops = []
+    cur_n = [n]                  # current number of elements (indices must stay valid)
+    queried = [False]
+
+    def q(k=None):
+        es_now_total = 60        # only a scale for the time steps; the true boundaries are added at run time ("b" entries)
+        via = r.choice(["cycle", "cycle", "light", "holder", "twin"])
+        if f in ("via-holder", "via-twin"):
+            via = f[4:]
+        ttyp = "np.int32" if (f == "q-np.int32" or (small and r.random() < 0.3)) else \
+            "np.int64" if (f == "q-np.int64" or r.random() < 0.15) else "int"
+        # time steps are given RELATIVE to the definition at run time: ["b", i, per, end] = first / last step of element i's
+        # window in period per; plain integers are absolute
+        ts = []
+        for _ in range(k or r.choice([2, 3, 4, 6])):
+            u = r.random()
+            if u < 0.6:
+                ts.append(["b", r.randrange(6), r.choice([-2, -1, 0, 0, 1, 2, 5]), r.random() < 0.5])
+            elif u < 0.9:
+                ts.append(r.randint(-es_now_total, 2 * es_now_total))
+            else:
+                ts.append(r.randint(-10 ** 6, 10 ** 6) if small or ttyp == "np.int32" else r.randint(-10 ** 12, 10 ** 12))
+        queried[0] = True
+        return ["q", ts, via, ttyp]
+
+    def new_el():
+        return [r.randrange(5), r.choice([1, 2, 3, r.randint(1, 9)] + ([] if small else [r.randint(1, 10 ** 4)]))]
+
+    def es_op(mode=None):
+        mode = mode or r.choice(["new", "new", "same", "reuse"])
+        if mode == "reuse":
+            m = r.choice([cur_n[0], cur_n[0], cur_n[0] + 1, max(1, cur_n[0] - 1)])
+            spec = [["old", r.randrange(cur_n[0])] for _ in range(m)]
+            if r.random() < 0.5:
+                spec = [["old", i] for i in reversed(range(cur_n[0]))]
+        else:
+            m = r.choice([1, 2, 3, 4])
+            spec = [new_el() for _ in range(m)]
+            if m >= 2 and r.random() < 0.2:
+                spec[-1] = ["dup", 0]          # the first NEW object once more
+        cur_n[0] = len(spec)
+        return ["es", spec, mode]
+
+    def off_op(same=False):
+        return ["off", "same" if same else r.choice([0, 1, 2, 7, r.randint(0, 30)]), r.choice(["int", "int", ityp])]
+
+    def dur_op():
+        return ["dur", r.randrange(cur_n[0]), r.choice([1, 2, 3, 4, r.randint(1, 9)])]
+
+    def state_op():
+        return ["state", r.randrange(cur_n[0]), r.randrange(5)]
+
+    def app_op():
+        cur_n[0] += 1
+        return ["app", new_el() if r.random() < 0.8 else ["old", r.randrange(cur_n[0] - 1)]]
+
+    def keep_op(name=None):
+        pool = list(KEEPS_ANY) + (KEEPS_LIGHT if light else []) + (KEEPS_HOLD if hold else [])
+        return ["keep", name or r.choice(pool)]
+
+    def any_op():
+        u = r.random()
+        if u < 0.34:
+            return q()
+        if u < 0.44:
+            return off_op(r.random() < 0.15)
+        if u < 0.54:
+            return es_op()
+        if u < 0.62:
+            return dur_op()
+        if u < 0.68:
+            return state_op()
+        if u < 0.73:
+            return app_op()
+        if u < 0.77:
+            return ["read"]
+        if u < 0.81 and light:
+            return r.choice([["fresh"], ["reassign"]])
+        return keep_op()
+
+    if f.startswith("op:"):
+        k = f[3:]
+        early = {"dur-early": dur_op, "state-early": state_op, "app-early": app_op, "read-early": lambda: ["read"]}
+        late = {"dur-late": dur_op, "state-late": state_op, "app-late": app_op, "read": lambda: ["read"],
+                "off-same": lambda: off_op(True), "es-same": lambda: es_op("same"), "es-reuse": lambda: es_op("reuse"),
+                "fresh": lambda: ["fresh"], "reassign": lambda: ["reassign"]}
+        if k in early:
+            ops += [early[k](), q(4)]
+        elif k in late:
+            ops += [q(), late[k](), q(4)]
+        elif k == "dur-alias":
+            i = [i for i in range(n) if cls.count(cls[i]) > 1][0]
+            ops += [["dur", i, r.choice([1, 4, 6])], q(6), ["dur", i, r.choice([2, 3, 5])], q(6)]
+        elif k == "off-es":
+            ops += [q(), off_op(), es_op(), q(4)]
+        elif k == "es-off":
+            ops += [q(), es_op(), off_op(), q(4)]
+        elif k == "raise_empty":
+            ops += [q(), ["es", [], "new"], ["keep", "raise_empty"], ["es", [new_el(), new_el()], "new"], q(4)]
+            cur_n[0] = 2
+    elif f.startswith("keep:"):
+        ops += [q(), keep_op(f[5:]), q(4)]
+    for _ in range(r.randint(2, 8) if force else r.randint(3, 12)):
+        ops.append(any_op())
+    if ops[-1][0] != "q":
+        ops.append(q(4))
+    case["ops"] = ops
+    return case
+
+
+class _Book:
+    """The oracle's own book of what was put into the cycle: element cells (identity -> [state, duration]) in order, and the
+    offset.  Independent of the Lean model (which keeps values + identity classes)."""
+
+    def __init__(self):
+        self.cells, self.order, self.off, self.next = {}, [], 0, 0
+
+    def new_cell(self, s, d):
+        self.next += 1
+        self.cells[self.next] = [s, d]
+        return self.next
+
+    def es(self):
+        return [list(self.cells[c]) for c in self.order]
+
+    def cls(self):
+        return list(self.order)
+
+
+def _mk_holder(kind, light, np):
+    from commonroad.scenario.lanelet import Lanelet, LaneletNetwork
+    from commonroad.scenario.scenario import Scenario, ScenarioID
+    la = Lanelet(np.array([[0., 1.], [10., 1.]]), np.array([[0., 0.], [10., 0.]]), np.array([[0., -1.], [10., -1.]]), 11)
+    if kind == "network":
+        net = LaneletNetwork.create_from_lanelet_list([la])
+        net.add_traffic_light(light, {11})
+        return net
+    sc = Scenario(0.1, ScenarioID())
+    sc.add_objects(la)
+    sc.add_objects(light, {11})
+    return sc
+
+
+def _net_of(holder):
+    return holder.lanelet_network if hasattr(holder, "lanelet_network") else holder
+
+
+def run_hist(ctx, case):
+    import numpy as np
+    import commonroad.scenario.traffic_light as M
+    from commonroad.geometry.shape import Rectangle
+    st, dirs = _states(), list(M.TrafficLightDirection)
+    E, C, L = M.TrafficLightCycleElement, M.TrafficLightCycle, M.TrafficLight
+    ityp = case.get("ityp") or "int"
+    ctx.case(case)
+    book = _Book()
+
+    # ---- construction
+    objs = {}                     # cell id -> element object
+
+    def build(es, cls):
+        """element objects for a list given with identity classes; returns (objects, cell ids)"""
+        by_cls, out, ids = {}, [], []
+        for (s, d), c in zip(es, cls):
+            if c not in by_cls:
+                cid = book.new_cell(s, d)
+                by_cls[c] = cid
+                objs[cid] = E(st[s], _num(ityp, d))
+            ids.append(by_cls[c])
+            out.append(objs[by_cls[c]])
+        return out, ids
+
+    els, ids = build(case["es"], case["cls"])
+    book.order = ids
+    kw = {}
+    if case.get("off") is not None:
+        kw["time_offset"] = _num(ityp, case["off"])
+        book.off = case["off"]
+    else:
+        ctx.tag("hist/off-omitted")
+    if case.get("cyc_active") is not None:
+        kw["active"] = case["cyc_active"]
+    ctx.tag("hist/cyc-active-" + {None: "omitted", True: "True", False: "False"}[case.get("cyc_active")])
+    if len(set(ids)) < len(ids):
+        ctx.tag("hist/alias")
+    ctx.tag(f"hist/ityp-{ityp}")
+    cyc = C(els, **kw)
+    light = holder = None
+    lc = case.get("light")
+    if lc is None:
+        ctx.tag("hist/no-light")
+    else:
+        lk = {}
+        if lc["color"] != "omit":
+            lk["color"] = None if lc["color"] is None else [st[s] for s in lc["color"]]
+        if lc["active"] != "omit":
+            lk["active"] = lc["active"]
+        if lc["direction"] != "omit":
+            lk["direction"] = dirs[lc["direction"]]
+            ctx.tag("hist/light-direction-given")
+        if lc["shape"] != "omit":
+            lk["shape"] = None if lc["shape"] is None else Rectangle(*lc["shape"])
+            if lc["shape"]:
+                ctx.tag("hist/light-shape")
+        pos = None if lc["pos"] is None else np.array(lc["pos"], dtype=float)
+        light = L(lc["id"], pos, cyc, **lk)
+        ctx.tag("hist/light-pos-" + ("None" if pos is None else f"{len(pos)}d"))
+        if lc["id"] == 0:
+            ctx.tag("hist/light-id-0")
+        if lc["color"] == []:
+            ctx.tag("hist/light-color-empty")
+        if lc["active"] is False:
+            ctx.tag("hist/light-active-False")
+        if case.get("hold") or case.get("io"):
+            holder = _mk_holder(case.get("hold") or "scenario", light, np)
+            if case.get("hold"):
+                ctx.tag(f"hist/hold-{case['hold']}")
+    if case.get("io") and light is not None:
+        # write the scenario, read it back: the history goes on on the light the reader built
+        import os
+        from commonroad.common.file_reader import CommonRoadFileReader
+        from commonroad.common.file_writer import CommonRoadFileWriter, OverwriteExistingFile
+        from commonroad.common.util import FileFormat
+        from commonroad.planning.planning_problem import PlanningProblemSet
+        from commonroad.scenario.scenario import Tag
+        fmt = FileFormat.XML if case["io"] == "xml" else FileFormat.PROTOBUF
+        sc = holder if hasattr(holder, "lanelet_network") else None
+        if sc is None:
+            sc = _mk_holder("scenario", copy.deepcopy(light), np)
+        path = os.path.join(ctx.tmpdir(), "c17" + (".xml" if case["io"] == "xml" else ".pb"))
+        import contextlib, io as _io
+        with contextlib.redirect_stdout(_io.StringIO()), contextlib.redirect_stderr(_io.StringIO()):
+            CommonRoadFileWriter(sc, PlanningProblemSet(), "a", "b", "c", {Tag.URBAN}, file_format=fmt).write_to_file(
+                path, OverwriteExistingFile.ALWAYS)
+            sc2, _ = CommonRoadFileReader(path, fmt).open()
+        got = sc2.lanelet_network.find_traffic_light_by_id(lc["id"])
+        if got is None or got.traffic_light_cycle is None or not got.traffic_light_cycle.cycle_elements:
+            ctx.excluded += 1          # the round trip itself is C02/C03's subject
+            return
+        light, cyc = got, got.traffic_light_cycle
+        holder = (sc2 if case.get("hold") == "scenario" else sc2.lanelet_network) if case.get("hold") else None
+        # the definition is what the read cycle's public getters report
+        book = _Book()
+        objs.clear()
+        seen = {}
+        for e in cyc.cycle_elements:
+            if id(e) not in seen:
+                seen[id(e)] = book.new_cell(st.index(e.state), int(e.duration))
+                objs[seen[id(e)]] = e
+            book.order.append(seen[id(e)])
+        book.off = int(cyc.time_offset)
+        ctx.tag(f"hist/io-{case['io']}")
+    es0, cls0, off0 = book.es(), book.cls(), book.off
+
+    # ---- the history
+    impl, m_ops = [], []
+    fresh_in_taint = []          # (op index, answer index): answered by the definition although an unseen in-place edit is pending
+    tainted = []                 # in-place edits the cycle cannot see, made while a table may exist (a query / read since the
+    memo = [False]               # last operation that drops it): only those are the recorded finding
+    had_query = [False]
+    last_setter = [None]
+    nq = 0
+
+    def resolve_spec(spec):
+        """["es"/"app"] element specs -> (objects, cell ids)"""
+        out, ids, news = [], [], []
+        for x in spec:
+            if x[0] == "old":
+                cid = book.order[x[1] % len(book.order)]
+            elif x[0] == "dup":
+                cid = news[x[1] % len(news)] if news else None
+                if cid is None:
+                    continue
+            else:
+                cid = book.new_cell(x[0], x[1])
+                objs[cid] = E(st[x[0]], _num(ityp, x[1]))
+                news.append(cid)
+            ids.append(cid)
+            out.append(objs[cid])
+        return out, ids
+
+    def holder_light():
+        return _net_of(holder).find_traffic_light_by_id(light.traffic_light_id)
+
+    for op in case["ops"]:
+        k = op[0]
+        if k == "q":
+            es_now, off_now = book.es(), book.off
+            if not es_now:
+                impl.append([])
+                m_ops.append(["keep", "skipped query on an empty cycle"])
+                continue
+            total = sum(d for _, d in es_now)
+            ts = []
+            for x in op[1]:
+                if isinstance(x, list):
+                    i = x[1] % len(es_now)
+                    ts.append(off_now + x[2] * total + sum(d for _, d in es_now[:i]) + (es_now[i][1] - 1 if x[3] else 0))
+                else:
+                    ts.append(x)
+            via, ttyp = op[2], op[3]
+            if ttyp == "np.int32" and any(abs(t) + off_now + total >= 2 ** 31 - 1 for t in ts):
+                ttyp = "int"
+            if via == "light" and light is None or via == "holder" and holder is None:
+                via = "cycle"
+            ctx.tag(f"via/{via}", f"q/{ttyp}")
+            if via == "twin":
+                # a SECOND light built around the same cycle object (after whatever the cycle has been through so far)
+                twin = L(4242, None, cyc, active=False)
+            target = {"cycle": lambda: cyc, "light": lambda: light, "holder": holder_light, "twin": lambda: twin}[via]()
+            ans = []
+            for t in ts:
+                rv = call(target.get_state_at_time_step, _num(ttyp, t))
+                rc = call(cyc.get_state_at_time_step, _num(ttyp, t)) if via != "cycle" else rv
+                a = {"ok": st.index(rc[1])} if rc[0] == "ok" else {"err": rc[1]}
+                ans.append(a)
+                want = oracle_state(es_now, off_now, t)
+                sub = dict(case, ops=case["ops"][:len(impl) + 1])
+                if rv[:2] != rc[:2]:
+                    _fail(ctx, f"C17/light.get_state_at_time_step/disagrees-with-cycle/via-{via}",
+                          f"history {_show(case, len(impl))}: at t={t} the light ({via}) reports {rv[1]}, its cycle {rc[1]}", sub)
+                if tainted and a == {"ok": want}:
+                    fresh_in_taint.append((len(impl), len(ans) - 1))
+                if a != {"ok": want}:
+                    got = st[a["ok"]].name if "ok" in a else f"raises {rc[2]}"
+                    if tainted:
+                        key = K_DUR if tainted[-1] == "dur" else K_APP
+                    else:
+                        key = "C17/cycle.get_state_at_time_step/wrong-state-in-history" + ("" if "ok" in a else f"/raises-{a['err']}")
+                    _fail(ctx, key, f"history {_show(case, len(impl))}: the cycle now has elements "
+                          f"{[(st[s].name, d) for s, d in es_now]}, offset {off_now}; t={t} reports {got}, the cycle definition "
+                          f"gives {st[want].name}", sub)
+            impl.append(ans)
+            m_ops.append(["q", ts])
+            had_query[0] = memo[0] = True
+            nq += 1
+            continue
+        impl.append([])
+        if k == "read":
+            call(lambda: cyc.cycle_init_timesteps)
+            memo[0] = True
+            m_ops.append(["read"])
+            ctx.tag("op/read" if had_query[0] else "op/read-before-first-query")
+        elif k == "off":
+            v = book.off if op[1] == "same" else op[1]
+            cyc.time_offset = _num(op[2], v)
+            if v == book.off:
+                ctx.tag("op/off-same-value")
+            book.off = v
+            tainted.clear()
+            memo[0] = False
+            m_ops.append(["off", v])
+            ctx.tag("op/off")
+            if last_setter[0] == "es":
+                ctx.tag("op/setter-order/es-off")
+            last_setter[0] = "off"
+        elif k == "es":
+            mode, spec = op[2], op[1]
+            if any(x[0] == "old" for x in spec) and not book.order:
+                mode, spec = "new", [[1, 2]]
+            new, ids = resolve_spec(spec)
+            if mode == "same":
+                held = cyc.cycle_elements
+                held[:] = new                       # the list the cycle holds, edited in place ...
+                cyc.cycle_elements = held           # ... and handed back through the setter
+            else:
+                cyc.cycle_elements = new
+            book.order = ids
+            tainted.clear()
+            memo[0] = False
+            m_ops.append(["es", book.es(), book.cls()])
+            ctx.tag(f"op/es-{mode}")
+            if last_setter[0] == "off":
+                ctx.tag("op/setter-order/off-es")
+            last_setter[0] = "es"
+        elif k == "dur":
+            if not book.order:
+                m_ops.append(["keep", "dur on an empty cycle skipped"])
+                continue
+            i = op[1] % len(book.order)
+            cyc.cycle_elements[i].duration = _num(ityp, op[2])
+            book.cells[book.order[i]][1] = op[2]
+            if memo[0]:
+                tainted.append("dur")
+            m_ops.append(["dur", i, op[2]])
+            ctx.tag("op/dur-after-query" if had_query[0] else "op/dur-before-first-query")
+            if book.order.count(book.order[i]) > 1:
+                ctx.tag("op/dur-on-aliased-element")
+        elif k == "state":
+            if not book.order:
+                m_ops.append(["keep", "state on an empty cycle skipped"])
+                continue
+            i = op[1] % len(book.order)
+            cyc.cycle_elements[i].state = st[op[2]]
+            book.cells[book.order[i]][0] = op[2]
+            m_ops.append(["state", i, op[2]])
+            ctx.tag("op/state-after-query" if had_query[0] else "op/state-before-first-query")
+        elif k == "app":
+            spec = op[1] if (op[1][0] != "old" or book.order) else [1, 2]
+            new, ids = resolve_spec([spec])
+            cyc.cycle_elements.append(new[0])
+            book.order = book.order + ids
+            if memo[0]:
+                tainted.append("app")
+            m_ops.append(["app", list(book.cells[ids[0]]), ids[0]])
+            ctx.tag("op/app-after-query" if had_query[0] else "op/app-before-first-query")
+        elif k in ("fresh", "reassign"):
+            if light is None:
+                m_ops.append(["keep", f"{k} without a light skipped"])
+                continue
+            if k == "reassign":
+                light.traffic_light_cycle = light.traffic_light_cycle
+                m_ops.append(["keep", "reassign"])
+            else:
+                # a new cycle object made of NEW elements with shifted colours / durations
+                es_new = [[(s + 1) % 5, d % 9 + 1] for s, d in (book.es() or [[0, 1]])][::-1]
+                book.order = [book.new_cell(s, d) for s, d in es_new]
+                for cid in book.order:
+                    objs[cid] = E(st[book.cells[cid][0]], _num(ityp, book.cells[cid][1]))
+                book.off = book.off + 1
+                cyc = C([objs[c] for c in book.order], _num(ityp, book.off))
+                light.traffic_light_cycle = cyc
+                tainted.clear()
+                had_query[0] = memo[0] = False
+                m_ops.append(["fresh", book.es(), book.cls(), book.off])
+            ctx.tag(f"op/{k}")
+        elif k == "keep":
+            name = op[1]
+            done = True
+            if name == "cyc_active":
+                cyc.active = not cyc.active
+            elif name == "eq":
+                call(lambda: (cyc == copy.copy(cyc), cyc.cycle_elements[0] == cyc.cycle_elements[-1], light == light))
+            elif name == "hash":
+                call(lambda: (hash(cyc), hash(cyc.cycle_elements[0]), hash(light) if light is not None and light.position is not None else 0))
+            elif name == "str":
+                call(lambda: (str(cyc), str(cyc.cycle_elements[0]), str(light)))
+            elif name == "repr":
+                call(lambda: (repr(cyc), repr(cyc.cycle_elements[0]), repr(light) if light is not None and light.position is not None else ""))
+            elif name == "raise_q":
+                rr = call(cyc.get_state_at_time_step, "soon")
+                if rr[0] != "err":
+                    done = False
+            elif name == "raise_empty":
+                if book.order:
+                    done = False
+                else:
+                    call(cyc.get_state_at_time_step, 3)        # raises (IndexError) or answers; leaves a table behind
+                    memo[0] = True
+                    m_ops.append(["read"])
+                    ctx.tag("op/keep/raise_empty")
+                    continue
+            elif name in ("deepcopy_cycle", "pickle_cycle") and light is None:
+                cyc = copy.deepcopy(cyc) if name == "deepcopy_cycle" else pickle.loads(pickle.dumps(cyc))
+                _rebind(objs, book, cyc)
+            elif name in ("deepcopy_cycle", "pickle_cycle", "deepcopy_light", "pickle_light") and light is not None and holder is None:
+                light = copy.deepcopy(light) if name.startswith("deepcopy") else pickle.loads(pickle.dumps(light))
+                cyc = light.traffic_light_cycle
+                _rebind(objs, book, cyc)
+                name = name.replace("_cycle", "_light")
+            elif name in ("deepcopy_cycle", "pickle_cycle", "deepcopy_light", "pickle_light", "deepcopy_holder", "pickle_holder",
+                          "copy_network") and holder is not None:
+                if name == "copy_network":
+                    from commonroad.scenario.lanelet import LaneletNetwork
+                    holder = LaneletNetwork.create_from_lanelet_network(_net_of(holder))   # from here on the network copy holds the light
+                else:
+                    holder = copy.deepcopy(holder) if name.startswith("deepcopy") else pickle.loads(pickle.dumps(holder))
+                    name = name.split("_")[0] + "_holder"
+                light = holder_light()
+                cyc = light.traffic_light_cycle
+                _rebind(objs, book, cyc)
+            elif light is None:
+                done = False
+            elif name == "light_active":
+                light.active = not light.active
+            elif name == "color":
+                light.color = [st[(len(impl) + j) % 5] for j in range(len(impl) % 3)]
+            elif name == "direction":
+                light.direction = dirs[len(impl) % 7]
+            elif name == "position":
+                light.position = np.array([float(len(impl)), -1.0])
+            elif name == "id":
+                if holder is None:
+                    light.traffic_light_id = light.traffic_light_id + 1
+                else:
+                    done = False                   # the holder's index is keyed by the id
+            elif name == "shape":
+                light.shape = Rectangle(1.0 + len(impl), 0.5)
+            elif name == "translate_rotate":
+                # raises for a light without / with a 3-d position: then it is one more failed call the history goes on after
+                done = call(light.translate_rotate, np.array([2.0, -1.0]), 0.5)[0] == "ok"
+            elif name == "holder_translate_rotate":
+                done = holder is not None and call(holder.translate_rotate, np.array([2.0, -1.0]), 0.5)[0] == "ok"
+            elif name == "convert_to_2d":
+                if light.position is None:
+                    done = False
+                else:
+                    light.convert_to_2d()
+            elif name == "raise_tr":
+                rr = call(light.translate_rotate, np.array([1.0, 1.0]), 7.0)
+                if rr[0] != "err":
+                    done = False
+            elif name == "draw":
+                if light.position is None or len(light.position) != 2:
+                    done = False
+                else:
+                    _draw(light, book.off + len(impl))
+                    if light.active and book.order:
+                        memo[0] = True
+                        # the renderer asks an ACTIVE light for its state (visualization/traffic_sign.py:513-514): one query
+                        m_ops.append(["read"])
+                        ctx.tag("op/keep/draw")
+                        continue
+            else:
+                done = False
+            if done:
+                ctx.tag(f"op/keep/{name}")
+            m_ops.append(["keep", name])
+        else:
+            raise InfraError(f"C17: unknown history op {k}")
+    if nq and getattr(ctx, "driver", None) is not None:
+        model = ctx.driver.ask("C17", "hist", {"es": es0, "cls": cls0, "off": off0, "ops": m_ops})
+        # while an in-place edit the cycle cannot see is pending, the model predicts the outdated answer of the CURRENT code
+        # (the recorded finding); an implementation that answers by the definition there is right, not in disagreement
+        impl = [list(a) for a in impl]
+        for i, j in fresh_in_taint:
+            if i < len(model) and j < len(model[i]):
+                impl[i][j] = model[i][j]
+        ctx.compare(case, impl, model, "history on one TrafficLightCycle object vs CR.TL.Hist.run")
+
+
+def _rebind(objs, book, cyc):
+    """after a copy: the book's cells now stand for the copy's element objects (same order, same sharing)"""
+    objs.clear()
+    for cid, e in zip(book.order, cyc.cycle_elements):
+        objs[cid] = e
+
+
+_RND = []
+
+
+def _draw(light, t):
+    import matplotlib
+    matplotlib.use("Agg")
+    from commonroad.visualization.mp_renderer import MPRenderer
+    if not _RND:
+        _RND.append(MPRenderer())
+    rnd = _RND[0]
+    rnd.draw_params.time_begin = t
+    rnd.draw_params.traffic_light.time_begin = t
+    light.draw(rnd)
+    rnd.render()            # the collected lights are drawn (and their state asked for) only here
+    rnd.clear()
+
+
+def _show(case, upto):
+    def one(op):
+        if op[0] == "q":
+            return f"query({op[2]})"
+        if op[0] == "keep":
+            return op[1]
+        return {"off": "time_offset=", "es": f"cycle_elements=({op[-1]})", "dur": "element.duration=", "state": "element.state=",
+                "app": "cycle_elements.append", "fresh": "light.traffic_light_cycle=new", "reassign": "light.traffic_light_cycle=same",
+                "read": "cycle_init_timesteps"}.get(op[0], op[0])
+    pre = ("file(" + case["io"] + ") " if case.get("io") else "") + (case.get("hold") or ("light" if case.get("light") else "cycle"))
+    return pre + ": " + " -> ".join(one(op) for op in case["ops"][:upto + 1])
 
 
 def run(ctx):
-    import glob, json, os
+    import glob, json, os, sys
     from common import CORPUS_DIR
+    stale_table = check_dimensions()
     for p in sorted(glob.glob(os.path.join(CORPUS_DIR, "C17", "*.json"))):
         run_case(ctx, json.load(open(p)))
     for _ in range(ctx.n(1500)):
         run_case(ctx, gen_case(ctx))
+    for i in range(ctx.n(1200)):
+        run_hist(ctx, gen_hist(ctx, FORCE[i // 2 % len(FORCE)] if i % 2 == 0 and i < 6 * len(FORCE) else None))
+    if stale_table:
+        # the code has grown past the table.  A concrete failure found anyway is reported as such (it is more useful than the
+        # bookkeeping message); otherwise the run must not pass for a check of the whole interface: exit 2
+        print("INFRA: " + stale_table, file=sys.stderr)
+        if not [f for f in ctx.failures if f.key not in (K_DUR, K_APP)]:
+            raise InfraError(stale_table)
 
 
 search = run
@@ -172,5 +1012,58 @@ def replay(ctx, case):
     run_case(ctx, case)
 
 
+class _Probe:
+    """a context that only collects finding keys (for shrinking; no model, no statistics)"""
+    driver = None
+
+    def __init__(self):
+        self.failures, self.excluded, self._tmp = [], 0, None
+
+    def tag(self, *a):
+        pass
+
+    def case(self, *a, **k):
+        pass
+
+    def compare(self, *a, **k):
+        return True
+
+    def fail(self, key, what, case, detail=None):
+        self.failures.append(key)
+
+    def tmpdir(self):
+        import tempfile
+        if self._tmp is None:
+            self._tmp = tempfile.mkdtemp(prefix="crverif_C17s_")
+        return self._tmp
+
+    def close(self):
+        import shutil
+        if self._tmp:
+            shutil.rmtree(self._tmp, ignore_errors=True)
+
+
+def _fails(case, key):
+    p = _Probe()
+    try:
+        run_hist(p, case)
+    except Exception:  # noqa
+        return False
+    finally:
+        p.close()
+    return key in p.failures
+
+
 def shrink(case, key):
+    """hist: drop operations, then the optional parts of the construction, while the same finding key is still produced"""
+    if case.get("kind") != "hist" or not _fails(case, key):
+        return case
+    from common import shrink_list
+    case = dict(case, ops=shrink_list(case["ops"], lambda ops: _fails(dict(case, ops=ops), key)))
+    for k, v in (("io", None), ("hold", None), ("light", None), ("cyc_active", None), ("ityp", "int")):
+        cand = dict(case, **{k: v})
+        if k == "light":
+            cand.update(hold=None, io=None)
+        if case.get(k) != v and _fails(cand, key):
+            case = cand
     return case
